@@ -2296,7 +2296,11 @@ class Summarizer(Evaluator):
                     continue
                 if kv not in mkeys and mentions_any(kv, mkeys):
                     body_st.env[name] = ('snapshot', kv)
-        n = 0
+        # a carried variable is identified by the value it enters the loop
+        # with (and, among variables entering with equal values, by the
+        # order in which the body first touches them), so that reordering
+        # independent statements of the body does not rename them
+        per_value = {}
         for name in sorted(first, key=lambda x: first[x]):
             v = body_st.env.get(name)
             if v is None or name in ('self', 'cls'):
@@ -2304,10 +2308,13 @@ class Summarizer(Evaluator):
             if isinstance(v, tuple) and v and v[0] in (
                     'import', 'importfrom', 'localfunc', 'bv'):
                 continue
-            body_st.env[name] = ('carried', depth, n)
+            vk = key(v)
+            k = per_value.get(vk, 0)
+            per_value[vk] = k + 1
+            ck = ('carried', depth, vk, k)
+            body_st.env[name] = ck
             if name in list_names:
-                self.carried_lists.add(('carried', depth, n))
-            n += 1
+                self.carried_lists.add(ck)
         # items stored in the body: forget what is known about the items of
         # those containers (of every container, if one cannot be named)
         base_keys = set()
